@@ -57,7 +57,7 @@ def main():
     suffix = sys.argv[1]
     if suffix >= "g":
         EXTRA = EXTRA_G
-    if suffix == "h":
+    if suffix in ("h", "i"):
         EXTRA = None
     for pid in sys.argv[2:]:
         p = props[pid]; name = pid + suffix
@@ -71,7 +71,7 @@ def main():
         mech = '; '.join(m['name'] + ' @ ' + m.get('where', '') for m in p['anchors']['mechanism'])
         txt = TMPL.format(id=pid, title=p['title'], statement=p['statement'], quant=p['quantifier']['text'], files=', '.join(p['anchors']['files']),
                           mech=mech, wt=wt, out=out,
-                          extra=(EXTRA if EXTRA is not None else (EXTRA_H_SIZES if int(pid[1:]) % 2 else EXTRA_H_SEQ)).format(prev=' | '.join(prev)))
+                          extra=(EXTRA if EXTRA is not None else (EXTRA_H_SIZES if (int(pid[1:]) + (suffix == "i")) % 2 else EXTRA_H_SEQ)).format(prev=' | '.join(prev)))
         open(f'{out}/prompt.txt', 'w').write(txt)
         subprocess.run(['git', '-C', '/repo', 'worktree', 'remove', '--force', wt], capture_output=True)
         subprocess.run(['git', '-C', '/repo', 'worktree', 'add', '-q', '--detach', wt, 'HEAD'], check=True, capture_output=True)
